@@ -461,8 +461,10 @@ def queryRWFull (t : Tables) (mode64 : Bool) (inst : Inst) (ops : List Opnd) : E
         let s0 := s1 / 2 ^ shift
         let a := OpRW.reset fW s0
         let b := OpRW.reset fR s1
-        let a := if Nat.testBit rm.rmOpsMask 0 then { a with flags := Nat.lor a.flags fRegM, rmSize := s0 % 256 } else a
-        let b := if Nat.testBit rm.rmOpsMask 1 then { b with flags := Nat.lor b.flags fRegM, rmSize := s1 % 256 } else b
+        -- fixes/C12-8: no register-or-memory claim with {er}/{sae} (register forms only)
+        let rmPossible := !has inst.options (oER + 0x80000)
+        let a := if rmPossible && Nat.testBit rm.rmOpsMask 0 then { a with flags := Nat.lor a.flags fRegM, rmSize := s0 % 256 } else a
+        let b := if rmPossible && Nat.testBit rm.rmOpsMask 1 then { b with flags := Nat.lor b.flags fRegM, rmSize := s1 % 256 } else b
         let a := if o0.isGp then zeroExtendGp a o0.rmSize nativeGp else a
         let a := if o0.isVec then zeroExtendAvxVec a else a
         okOut (handleAvx512 inst ii.implicitZ (ret (third ++ [(0, a), (1, b)])))
@@ -489,8 +491,10 @@ def queryRWFull (t : Tables) (mode64 : Bool) (inst : Inst) (ops : List Opnd) : E
       let a := if o0.isVec then zeroExtendAvxVec a else a
       let b := OpRW.reset fR s1
       if o0.isReg && o1.isReg then
-        let a := if Nat.testBit rm.rmOpsMask 0 then { a with flags := Nat.lor a.flags fRegM, rmSize := s0 % 256 } else a
-        let b := if Nat.testBit rm.rmOpsMask 1 then { b with flags := Nat.lor b.flags fRegM, rmSize := s1 % 256 } else b
+        -- fixes/C12-8: no register-or-memory claim with {er}/{sae} (register forms only)
+        let rmPossible := !has inst.options (oER + 0x80000)
+        let a := if rmPossible && Nat.testBit rm.rmOpsMask 0 then { a with flags := Nat.lor a.flags fRegM, rmSize := s0 % 256 } else a
+        let b := if rmPossible && Nat.testBit rm.rmOpsMask 1 then { b with flags := Nat.lor b.flags fRegM, rmSize := s1 % 256 } else b
         okOut (handleAvx512 inst ii.implicitZ (ret (third ++ [(0, a), (1, b)])))
       else if o0.isReg && o1.isMem then
         okOut (handleAvx512 inst ii.implicitZ (ret (third ++ [(0, a), (1, { b with flags := Nat.lor b.flags fMibRead })])))
@@ -724,6 +728,7 @@ def optBits (s : String) : Option Nat :=
     | none => none
     | some a =>
       if c == 'z' then some (Nat.lor a oZMask) else if c == 'e' then some (Nat.lor a oER) else if c == 's' then some (Nat.lor a 0x80000)
+      else if c == 'd' then some (Nat.lor a 0x200000) else if c == 'u' then some (Nat.lor a 0x400000) else if c == 'o' then some (Nat.lor a 0x600000)
       else if c == 'E' then some (Nat.lor a oEvex) else if c == 'V' then some (Nat.lor a oVex) else if c == '3' then some (Nat.lor a oVex3)
       else none) (some 0)
 
